@@ -89,7 +89,7 @@ CHECKS = {
                 "schedule (SCHED), key/base/stack registers are loop-invariant and nothing else is live into the loop - so the per-iteration result extends to every round count >= 1. On the same "
                 "paths: stores only to the four state words or the own frame, loads inside the structure (EFFECT); stack, return address and every written callee-saved register restored (ABI, both "
                 "Xtensa ABIs). SELECT: every target macro set selects one backend macro and exactly one unit defines each entry point. WELLFORMED: 7 of 8 ISAs assemble with LLVM-14 and the "
-                "instruction counts agree with the parse. The three C backends get the same STEP/SCHED/EFFECT treatment on their N0 IR. No access to the state claims more than the 8-byte alignment its type guarantees.",
+                "instruction counts agree with the parse. The three C backends get the same STEP/SCHED/EFFECT treatment on their N0 IR. No access to the state claims more than the 8-byte alignment its type guarantees. The C backends touch no writable global (no hidden state: a cached result makes the permutation depend on earlier calls).",
         "note": "NOT decided: the clause 'generated files are byte-identical to the generators' output' (needs running tools/gen*; no AVR generator is bundled) - declined as not static. ISA "
                 "semantics and ABI tables are trusted as transcribed in tj/asmx.py; Xtensa has no assembler here (text only). rounds == 0 is outside the property.",
         "technique": "abstract interpretation of assembly / IR in a GF(2) bit-provenance term domain, one symbolic loop iteration + structural induction premises; effect and ABI pairing rules",
